@@ -152,8 +152,10 @@ Section Search.
     end.
 End Search.
 
-Definition degenerate_result : result :=
-  {| r_sol := SOne []; r_obj := 0; r_iters := 0; r_evals := 0; r_status := OPTIMAL |}.
+(* lines 230-235: `if not matrix` / `root is None` early return; with find_all the list form [()] *)
+Definition degenerate_result (fa : bool) : result :=
+  if fa then {| r_sol := SMany [[]]; r_obj := 1; r_iters := 0; r_evals := 0; r_status := OPTIMAL |}
+  else {| r_sol := SOne []; r_obj := 0; r_iters := 0; r_evals := 0; r_status := OPTIMAL |}.
 
 Definition init_st : sst := {| iters := 0; covers := 0; sols := [] |}.
 
@@ -194,7 +196,7 @@ Definition degenerate (inp : input) : bool :=
 Definition fuel_of (inp : input) : nat := S (length (prim_cols inp)).
 
 Definition solve (inp : input) : outcome :=
-  if degenerate inp then Done degenerate_result
+  if degenerate inp then Done (degenerate_result (find_all inp))
   else
     let rows := mk_rows (matrix inp) in
     if negb (rows_in_range (length (col_names inp)) rows) then IndexError
